@@ -28,7 +28,10 @@ CONFIGS = [  # (n, batching)
 CONFIGS_T = CONFIGS + [(11, {'nb': 6}), (12, {'bs': 2}), (13, {'nb': 7}), (13, {'bs': 2}), (7, {'nb': 7}), (11, {'nb': 7}), (9, {'nb': 6})]
 KINDS = [{'scalar': 'num'}, {'scalar': 'bool'}, {'scalar': 'str'}, {'arr': [[2], 'num']},
          {'tuple': [[[], 'num'], [[2], 'num']]}, {'scalar': 'int'},
-         {'ds': [['u', [], 'int'], ['v', [2], 'bool']]}]      # the function returns a Dataset with integer and boolean data
+         {'ds': [['u', [], 'int'], ['v', [2], 'bool']]},      # the function returns a Dataset with integer and boolean data
+         # numpy arrays of integer / boolean / string dtype (the stand-in must still be all-missing, whatever the dtype)
+         {'arr': [[2], 'int'], 'np': True}, {'arr': [[2, 2], 'int'], 'np': True}, {'arr': [[3], 'bool'], 'np': True},
+         {'arr': [[2], 'str'], 'np': True}, {'arr': [[2], 'num'], 'np': True}]
 
 
 def nontrivial(h): return True
@@ -76,7 +79,9 @@ def _history(rng, n, b, S, shuffle, kind, cases, variant):
         ops += [{'op': 'reap', 'allow_incomplete': True}]
         if variant == 'reload': ops.append({'op': 'reload'})
         ops += [{'op': 'query'}, {'op': 'growmissing'}, {'op': 'reap'}]
-    return {'sweep': sw, 'kind': kind, 'ops': ops, 'S': sorted(S), 'B': crops.num_batches_for(n, b), 'variant': variant}
+    np_ = bool(kind.get('np'))
+    kind = {k: v for k, v in kind.items() if k != 'np'}
+    return {'sweep': sw, 'kind': kind, 'np': np_, 'ops': ops, 'S': sorted(S), 'B': crops.num_batches_for(n, b), 'variant': variant}
 
 
 def cases(ctx):
@@ -97,7 +102,7 @@ def cases(ctx):
                 variant = ['plain', 'plain', 'reload', 'refused', 'plain', 'clean_true', 'plain'][i % 7]
                 out.append(_history(rng, n, b, S, shuffle, kind, cases=(i % 3 == 0), variant=variant))
     for h in out:
-        ctx.count('B', h['B']); ctx.count('kind', json.dumps(h['kind'])); ctx.count('variant', h['variant'])
+        ctx.count('B', h['B']); ctx.count('kind', json.dumps(h['kind']) + (' (numpy)' if h.get('np') else '')); ctx.count('variant', h['variant'])
         ctx.count('shuffle', bool(h['ops'][0].get('shuffle') or h['ops'][1].get('shuffle')))
     # partial reaps into a Harvester / Sampler during whose sync another worker finishes the outstanding batch
     # ("by default deletes nothing so growing can continue"): the scenario runner is C12's
